@@ -121,6 +121,11 @@ bool finished(int tid);
 bool blocked(int tid); // true if not runnable (mutex/cond/join/sleep) or done
 bool blocked_not_sleeping(int tid); // blocked on mutex/cond/join
 const char* block_reason(int tid);
+// Spuriously wakes thread `tid` if it sleeps on a condition variable (POSIX
+// allows that at any time).  A harness uses it to tell "sleeping because the
+// predicate is false" from "sleeping although the predicate is true" (a lost
+// wake-up): a correct waiter re-checks and goes back to sleep.
+bool poke_cond_waiter(int tid);
 int self();
 int nthreads();
 
